@@ -278,7 +278,23 @@ func broken(req []byte, p Params) (out string) {
 			km["nonce"] = nonce
 		}
 		code, _, _ := asm.DecodeMultihash(rv)
-		if canon, err := refjcs.Canonical(refjcs.FromGo(km)); err != nil || asm.Multihash(code, canon) != rv {
+		// ... of the key as it stands in the signed data, when the member is there once and under its own name (the key
+		// model would add an empty y to a key that has none and drop members it does not know); with twin members the
+		// model decides which one is meant, and the model's form is what can be said
+		exact, variants := (*refjcs.Value)(nil), 0
+		for _, sm := range sv.Obj {
+			if strings.EqualFold(sm.Name, keyName) {
+				variants++
+				if sm.Name == keyName {
+					exact = sm.Val
+				}
+			}
+		}
+		if variants == 1 && exact != nil {
+			if canon, err := refjcs.Canonical(exact); err != nil || asm.Multihash(code, canon) != rv {
+				return "reveal value is not the hash of the signing key as it stands in the signed data"
+			}
+		} else if canon, err := refjcs.Canonical(refjcs.FromGo(km)); err != nil || asm.Multihash(code, canon) != rv {
 			return "reveal value is not the hash of the signing key"
 		}
 		if typ != "deactivate" {
@@ -458,7 +474,7 @@ func drawSpec(t *rapid.T) reqSpec {
 // mutation of one field of a valid request (re-signing nothing: intake does not verify signatures).
 func mutations() []string {
 	return []string{"none", "hash-other-alg", "hash-malformed", "hash-too-long", "hash-unknown-code", "alg-disabled", "crv-disabled", "nonce-wrong-size", "patch-disabled", "reveal-mismatch",
-		"alg-case-variant", "crv-case-variant", "short-digest", "reveal-of-other-key", "reveal-of-other-key-signed-own", "reveal-respelled", "patch-unknown-action", "delta-missing", "signed-data-missing", "did-suffix-over-long", "hash-respelled", "alg-of-another-key-type", "digest-length", "did-suffix-not-a-multihash"}
+		"alg-case-variant", "crv-case-variant", "short-digest", "reveal-of-other-key", "reveal-of-other-key-signed-own", "reveal-respelled", "patch-unknown-action", "delta-missing", "signed-data-missing", "did-suffix-over-long", "hash-respelled", "alg-of-another-key-type", "digest-length", "did-suffix-not-a-multihash", "signing-key-in-another-form"}
 }
 
 func mutate(t *rapid.T, s reqSpec, mut string, p *Params) []byte {
@@ -600,6 +616,28 @@ func mutate(t *rapid.T, s reqSpec, mut string, p *Params) []byte {
 				req["revealValue"] = asm.Reveal(keys.Get(s.kt, "c10", 9), s.code)
 				own := asm.Reveal(sg.RevealKey, s.code)
 				resign(req, sg, func(signed map[string]interface{}, _ map[string]interface{}) { signed["revealValue"] = own })
+			}
+		case "signing-key-in-another-form":
+			// the same key written differently in the signed data - an Ed25519 key without its (empty) y member, any key
+			// with a member the key model does not know - while the reveal value stays the hash of the first form
+			if sg != nil {
+				member := "recoveryKey"
+				if sg.Type == "update" {
+					member = "updateKey"
+				}
+				resign(req, sg, func(signed map[string]interface{}, _ map[string]interface{}) {
+					km, _ := signed[member].(map[string]interface{})
+					other := map[string]interface{}{}
+					for k, v := range km {
+						other[k] = v
+					}
+					if y, _ := other["y"].(string); y == "" && rapid.Bool().Draw(t, "dropEmptyY") {
+						delete(other, "y")
+					} else {
+						other["kid"] = "key-1"
+					}
+					signed[member] = other
+				})
 			}
 		case "did-suffix-not-a-multihash":
 			// within the length limit, but not a hash: text, base64url of something else, a multihash without digest or
